@@ -66,7 +66,78 @@ class C11Oracle(Oracle):
         if k == "conv":
             self.conv(sim, step, op, rec)
             return True
+        if k == "cli":
+            self.cli(sim, step, op, rec)
+            return True
         return False
+
+    def cli(self, sim, step, op, rec):
+        """`verif files -m obs -agg count -x <axis> -type csv` end to end: row labels against the calendar
+        model, one row per slice, counts equal to what the data layer returns slice by slice."""
+        import io
+        import contextlib
+        import verif.driver
+        axis = op["axis"]
+        data = sim.datasets[0]
+        if sim.config:
+            return
+        argv = ["verif"] + list(sim.names[:sim.n_inputs]) + ["-m", "obs", "-agg", "count", "-x", axis.lower(), "-type", "csv"]
+        buf = io.StringIO()
+        try:
+            with contextlib.redirect_stdout(buf):
+                verif.driver.run(argv)
+        except (SystemExit, Exception) as e:
+            sim.violate(step, "cli_rows", {"axis": axis, "error": classify(e), "zone": sim.env.zone, "out": buf.getvalue()[-300:]})
+            return
+        lines = [l for l in buf.getvalue().splitlines() if l and not l.startswith("\x1b")]
+        rec["cli"] = lines[:6]
+        if not lines:
+            sim.violate(step, "cli_rows", {"axis": axis, "error": "no output", "zone": sim.env.zone})
+            return
+        header = lines[0].split(",")
+        rows = [l.split(",") for l in lines[1:]]
+        exp, _ = self.expected_axis(sim, data, axis)
+        ndesc = 4 if axis in LOC_AXES else 1
+        if len(rows) != len(exp):
+            sim.violate(step, "cli_rows", {"axis": axis, "rows": len(rows), "expected": len(exp), "zone": sim.env.zone})
+            return
+        # labels
+        for s_, row in enumerate(rows):
+            if axis in ("Time", "Year", "Month", "Week", "Day"):
+                want = MC.label(axis, exp[s_])
+                if row[0] != want:
+                    sim.violate(step, "cli_rows", {"axis": axis, "row": s_, "label": row[0], "expected": want, "zone": sim.env.zone})
+                    return
+            elif axis in LOC_AXES:
+                byid = {l["id"]: l for l in self.u["locations"]}
+                l = byid[int(data.locations[s_].id)]
+                got = [float(x) for x in row[:4]]
+                if got != [float(l["id"]), float(l["lat"]), float(l["lon"]), float(l["elev"])]:
+                    sim.violate(step, "cli_rows", {"axis": axis, "row": s_, "label": row[:4], "zone": sim.env.zone})
+                    return
+            else:
+                if not _same(row[0], exp[s_]):
+                    sim.violate(step, "cli_rows", {"axis": axis, "row": s_, "label": row[0], "expected": exp[s_], "zone": sim.env.zone})
+                    return
+        # counts against the data layer, slice by slice and input by input
+        for i in range(sim.n_inputs):
+            for s_, row in enumerate(rows):
+                r = self.request(sim, step, [["Obs"]], i, axis, s_, rec)
+                if sim.violation is not None:
+                    return
+                if r["status"] != "ok":
+                    return
+                a = np.asarray(r["arrays"][0])
+                n = int(np.sum(~np.isnan(a)))
+                try:
+                    got = float(row[ndesc + i])
+                except (IndexError, ValueError):
+                    sim.violate(step, "cli_rows", {"axis": axis, "row": s_, "error": "unparsable", "line": row, "zone": sim.env.zone})
+                    return
+                if got != n:
+                    sim.violate(step, "cli_rows", {"axis": axis, "row": s_, "input": i, "count": got, "expected": n, "zone": sim.env.zone})
+                    return
+        sim.stats["probe:cli_count_tables"] += 1
 
     def expected_axis(self, sim, data, axis):
         """(expected axis values, function case -> slice value) from the model and the dataset's public dims."""
@@ -313,7 +384,7 @@ def _same(a, b):
 def signature(spec, violation):
     k = violation["kind"]
     d = violation.get("detail", {})
-    if k in ("axis_values", "wrong_bucket", "bucket_function", "labels", "env_dependent_result"):
+    if k in ("axis_values", "wrong_bucket", "bucket_function", "labels", "env_dependent_result", "cli_rows"):
         return "%s axis=%s" % (k, d.get("axis"))
     if k == "partition":
         return "partition sub=%s axis=%s" % (d.get("sub"), d.get("axis"))
